@@ -314,6 +314,26 @@ pub fn tree_structure(net: &Net, tree: &[TreeEntry], root: usize, reverse: bool,
         if origin_edge == Some(t.edge) && t.vertex == root {
             continue;
         }
+        // an entry keyed at the search origin itself (other than the injected origin-edge entry): following its parents must not
+        // come back to the origin
+        if t.vertex == root {
+            let mut v = t.parent;
+            let mut chain = vec![root, v];
+            for _ in 0..net.n + 2 {
+                if v == root {
+                    bad.push(("tree_parents_reach_origin", format!("the search origin {} carries an entry (edge {}) whose parents lead back to it: {:?}", root, t.edge, chain)));
+                    break;
+                }
+                match map.get(&v) {
+                    None => break,
+                    Some(e) => {
+                        v = e.parent;
+                        chain.push(v);
+                    }
+                }
+            }
+            continue;
+        }
         let mut v = t.vertex;
         let mut visited = vec![v];
         let mut steps = 0;
